@@ -293,7 +293,7 @@ def run(tier, seed, log):
     th_rt.start()
     # --- 2. the real objects, explored with the same alphabet ----------------------------------
     configs = [dict(name="A", ids=ids_a, W=2, L=2, level=3, prune=True, light=(tier == "quick"))]
-    ids_b = [0, -1, 5]
+    ids_b = [0, -1, 5000]
     configs.append(dict(name="B", ids=ids_b, W=1, alphabet=ordering_alphabet(3, 1, ids_b), prune=True))
     configs.append(dict(name="S", ids=[7, -2, 5, 3], W=1, alphabet=sorting_alphabet(4), prio=[2, 1, 1, 0]))
     if tier == "thorough":
@@ -348,9 +348,9 @@ def run(tier, seed, log):
     # --- 4. long random histories over larger universes ----------------------------------------
     if True:
         big = tier != "quick"
-        plans = [([0, 2, 3, 0, 2, -4], 3, 1500 if big else 150, 40, None, "random"),
+        plans = [([0, 2000, 3, 0, 2000, -4], 3, 1500 if big else 150, 40, None, "random"),
                  ([3, 1, 4, -1, 5, 9], 1, 3000 if big else 250, 20, dense_links, "dense links"),
-                 ([0, -1, 5, 7], 1, 4000 if big else 400, 12, handle_walk, "list objects")]
+                 ([0, -1, 5, 7000], 1, 4000 if big else 400, 12, handle_walk, "list objects")]
         if tier == "thorough":
             plans.append(([0, 2, 3, 4, -5, 0, 2, 6], 3, 600, 60, None, "random"))
         for ids, W, count, depth, step, pname in plans:
